@@ -65,7 +65,7 @@ pub fn yield_with_io<T: EventSource>(resource: &T, is_coroutine: bool) {
         crate::io::thread::PROXY_CO_SENDER.with(|tx| {
             tx.send(es).unwrap();
         });
-        std::thread::park();
+        crate::io::thread::wait_proxy_co();
     }
 }
 
